@@ -47,7 +47,9 @@ CHECK_TEXT["C10"] = {
              "empty hold-back queue (its real assert! is a discharged obligation), a final flush, and all epochs 0..total committed group by group in "
              "creation order; submit_write_batch hands every batch to the pipeline; serialize_worker only forwards well-formed tasks. "
              "What one batch carries: TypedWideColumnWrites::insert / TypedKeyOfSetWrites::insert are last-writer-wins steps on exactly one slot and compose "
-             "(lemmas) to the net effect of the staged operations in issue order. "
+             "(lemmas) to the net effect of the staged operations in issue order; WriteEntry::write_to_db of both typed maps emits exactly one operation per staged "
+             "slot, and -- through a trait contract on the type-erased `dyn WriteEntry` -- WideColumnWrites / KeyOfSetWrites / WriteBatch::write_to_db let every entry of a batch "
+             "emit exactly once. The backend ends (commit / consume_serialization_buffer of RocksDB and Fjall) are re-verified here. "
              "Tests run a handful of schedules; this covers every arrival order and every grouping decision of the store."),
     "design_ref": "DESIGN.md section 5 (C10)",
     "note": ("Threads are not modelled: the history preconditions of commit_worker (each epoch delivered at most once; all delivered by channel close) are "
@@ -63,11 +65,13 @@ CHECK_TEXT["C16"] = {
              "region only when the owner refused, keep window+probation+protected <= max_capacity after every operation (unbounded induction, all access "
              "sequences), and never panic (every unwrap() is a discharged obligation -- this is how finding F3 was found and fixed). "
              "The dispatcher above it (tiny_lfu.rs process_write / process_message) delivers every message to its handler with its own key whatever the "
-             "concurrently mutated storage map answers. sketch.rs: every index in bounds, no overflow, 4-bit counters never carry (Verus + Kani on a full-domain word). "
+             "concurrently mutated storage map answers; the closure it hands the policy (remove_closure) answers true only for an entry it removed under the entry lock while the owner "
+             "reported it un-pinned. sketch.rs: every index in bounds, no overflow, 4-bit counters never carry, clear() zeroes every word and reset() halves every counter "
+             "without touching its neighbour (Verus + Kani on a full-domain word). "
              "The Lru contract itself is checked on the real raw-pointer Lru by a bounded exhaustive conformance run (labelled bounded)."),
     "design_ref": "DESIGN.md section 5 (C16), section 7 (F3)",
     "note": ("ASSUMED: the abstract Lru contract (bounded-checked only), the remove closure's meaning, key Clone, 64-bit usize. NOT decided: concurrent buffers between "
-             "storage map and policy, DedicatedThread mode, remove_closure/scc::HashMap, the lock-table clause. See evidence.trusted_base."),
+             "storage map and policy, DedicatedThread mode, scc::HashMap itself (stand-in with event predicates), the lock-table clause (bounded run only). See evidence.trusted_base."),
     "technique": "contract-based deductive verification: Verus (Z3) with an assumed data-structure contract, Kani on bit tricks, bounded conformance run of the assumed contract",
 }
 
@@ -107,8 +111,9 @@ CHECK_TEXT["C09"] = {
              "operation in issue order says; lemma: overlaying that snapshot on any base set equals applying all operations in issue order (idempotent over an "
              "already flushed prefix). These contracts did not hold on the original tree (finding F2, fixed). Entry state machine of the wide-column caches: the "
              "closures WideColumnCache::insert / ::remove run on the locked entry carry closure contracts (value written / absence remembered, pin count +1 iff the "
-             "batch updated the key, an entry with pins > 0 is never dropped). Re-established here because read-your-writes rests on them: the commit kernel "
-             "(notification only after commit) and the cache policy with its atomic remove closure (a pinned entry is never evicted). Single-flight fills, flush races "
+             "batch updated the key, an entry with pins > 0 is never dropped); the eviction question is_pinned of both caches answers pinned exactly while the pin / dirty "
+             "counter is non-zero, whatever the entry holds (a pending remove stays pinned). Re-established here because read-your-writes rests on them: the commit kernel "
+             "(notification only after commit), what a committed batch leaves in the store (the net effect of its staged operations: c10_coalesce) and the cache policy with its atomic remove closure (a pinned entry is never evicted). Single-flight fills, flush races "
              "and the set cache's entry handling are exercised only by a bounded run on the real code."),
     "design_ref": "DESIGN.md section 5 (C09), section 7 (F2)",
     "note": ("Partial claim. Read-your-writes of the three cached maps as a whole is a concurrent property and is NOT proved; the bounded run samples histories "
